@@ -208,3 +208,17 @@ def locate_loop(fi: FuncInfo, which: int = 0, kind=(ast.For, ast.While)):
     if len(found) <= which:
         raise AnalysisError(f"{fi.qualname}: expected a loop #{which} outside other loops - shape not recognised")
     return found[which]
+
+
+def returned_names(stmts) -> Optional[set]:
+    """Names that flow into the (single) return value of a statement list, following the simple
+    assignments that precede it (`_rv = np.array(out); return _rv` still returns `out`)."""
+    rets = [(k, st) for k, st in enumerate(stmts) if isinstance(st, ast.Return)]
+    if len(rets) != 1 or rets[0][1].value is None:
+        return None
+    k, ret = rets[0]
+    names = {n.id for n in ast.walk(ret.value) if isinstance(n, ast.Name)}
+    for st in reversed(stmts[:k]):
+        if isinstance(st, ast.Assign) and len(st.targets) == 1 and isinstance(st.targets[0], ast.Name) and st.targets[0].id in names:
+            names |= {n.id for n in ast.walk(st.value) if isinstance(n, ast.Name)}
+    return names
